@@ -15,3 +15,4 @@ pub fn compile_flag_scope_repaired(pattern: &str) -> Option<fancy_regex::Regex> 
     r
 }
 
+
